@@ -23,6 +23,7 @@ EXTENDS TraceConf, Json
 CONSTANTS FragSet,      \* name of the fragment set to use
           MaxFrags,     \* bound on the number of fragments chosen (R1); large for R2
           MaxStack, MaxWindow, MaxSpec, MaxToksSinceCk,
+          MaxCalls,     \* bound on the number of open calls (ExpectSymbol RPAREN modes) and of open string expressions
           Emit1         \* BOOLEAN: print REPLAY lines
 
 VARIABLES T,      \* the text chosen so far: [cs, cc]
@@ -149,8 +150,12 @@ CoverView ==
     LookBehind(S.toks),
     Len(WinFrags), IF WinFrags = <<>> THEN <<>> ELSE SubSeq(T.cs, Base + 1, Base + WinFrags[1])>>
 
+CountModes(P(_)) == Cardinality({i \in 1..Len(S.modes) : P(S.modes[i])})
+IsOpenCall(m) == m.k = "ExpectSymbol" /\ m.a = "RPAREN"
+IsStrExpr(m) == m.k = "StringExpr"
 Bounds ==
   /\ Len(S.modes) <= MaxStack
+  /\ CountModes(IsOpenCall) <= MaxCalls /\ CountModes(IsStrExpr) <= MaxCalls
   /\ Len(WinFrags) <= MaxWindow          \* fragments in the unread window
   /\ (S.ck.set => (S.pos - S.ck.pos <= MaxSpec /\ Len(S.toks) - S.ck.nt <= MaxToksSinceCk))
   /\ S.nest <= 2 /\ Len(S.pend) <= 3
